@@ -221,6 +221,67 @@ def targeted_cases(rng, tier):
     return out
 
 
+def boundary_cases(rng, tier):
+    """Counts, sizes and offsets that sit exactly on the boundaries of the variable-length integers of the
+    metadata (zigzag varints change length at 64, 8192, 2^20; plain varints at 128, 16384): value counts and row
+    counts of a page / chunk / row group / file, uncompressed and compressed page sizes, chunk sizes.  One page per
+    chunk (huge page_size) unless stated.  Offsets are placed by place_at_offset()."""
+    out = []
+    big = fc.Options(codec="UNCOMPRESSED", page_size=1 << 26)
+    marks = [64, 8192] + ([1 << 20] if tier == "thorough" else [])
+    around = lambda m: (m - 1, m, m + 1)
+    i32c, boolc = fc.Column("v", "INT32"), fc.Column("b", "BOOLEAN")
+    for m in marks:
+        for n in around(m):
+            # num_values / num_rows = n (BOOLEAN: small file) ; uncompressed_page_size = n (INT32: n/4 values)
+            if n <= 8193 or n == 1 << 20:
+                rows = [bytes([k % 3 == 0]) for k in range(n)]
+                out.append(history(fc.Schema([boolc]), big, [[[rows]]], name=f"boundary:rows:{n}"))
+            if n % 4 == 0:
+                rows = [struct.pack("<I", (k * 2654435761) & 0xFFFFFFFF) for k in range(n // 4)]
+                out.append(history(fc.Schema([i32c]), big, [[[rows]]], name=f"boundary:pagebytes:{n}"))
+    # the file / a row group holds exactly 8192 rows in two halves; 8192 nulls
+    rows = [bytes([k % 5 == 0]) for k in range(4096)]
+    out.append(history(fc.Schema([boolc]), big, [[[rows]], [[rows]]], name="boundary:file-rows:4096+4096"))
+    out.append(history(fc.Schema([boolc]), big, [[[rows, rows]]], name="boundary:rg-rows:2x4096-one-page"))
+    oc = fc.Column("o", "INT32", "OPTIONAL")
+    out.append(history(fc.Schema([oc]), big, [[[[None] * 8192 + [i32(7)]]]], name="boundary:nulls:8192"))
+    # 8192 values split over pages of 64 values (page headers with num_values 64, chunk num_values 8192)
+    rows = [struct.pack("<I", k) for k in range(8192)]
+    out.append(history(fc.Schema([i32c]), fc.Options(page_size=64 + 4 * 64), [[batches_of(rows, [64] * 128)]], name="boundary:pages-of-64"))
+    # compressed page sizes near the marks: constant data compresses to little, random data to itself
+    for codec in ("SNAPPY", "LZ4", "ZSTD", "GZIP"):
+        rows = [bytes(rng.getrandbits(8) for _ in range(8)) for _ in range(1024)]
+        out.append(history(fc.Schema([fc.Column("d", "INT64")]), fc.Options(codec=codec, page_size=1 << 26), [[[rows]]], name=f"boundary:{codec}:8192-random"))
+    return out
+
+
+def place_at_offset(target, codec="UNCOMPRESSED"):
+    """A two-column history whose SECOND chunk starts exactly at file offset `target` (data_page_offset / file_offset
+    = target, first chunk's total_compressed_size = target - 4): the first column is one BYTE_ARRAY value whose
+    length is adjusted until the independent reader sees the second chunk there.  Returns None when not reached."""
+    sch = fc.Schema([fc.Column("pad", "BYTE_ARRAY"), fc.Column("v", "INT32")])
+    opt = fc.Options(codec=codec, page_size=1 << 26)
+    length = max(0, target - 60)
+    for _ in range(6):
+        pad = bytes((k * 7 + 3) % 251 for k in range(length))
+        c = history(sch, opt, [[[[pad]], [[i32(1), i32(2)]]]], name=f"boundary:offset:{target}")
+        (st, data), = write_all([c])
+        if data is None:
+            return None
+        pf = pq.read_file(data, decode_values=False)
+        try:
+            start = pf.chunks[0][1].start
+        except (IndexError, AttributeError):
+            return None
+        if start == target:
+            return c
+        length += target - start
+        if length < 0:
+            return None
+    return None
+
+
 def enum_cases(rng, tier):
     """Write histories enumerated exhaustively for small tables: every ordered partition of the rows of every
     column (2^(n-1) histories for n rows), for page sizes that put all calls in one page, each call in its own
@@ -254,7 +315,12 @@ def random_cases(rng, tier, count):
 
 
 def gen_cases(tier, rng):
-    cases = targeted_cases(rng, tier) + enum_cases(rng, tier) + random_cases(rng, tier, 1500 if tier == "quick" else 25000)
+    cases = targeted_cases(rng, tier) + boundary_cases(rng, tier)
+    for target in (64, 8192) + ((1 << 20,) if tier == "thorough" else ()):
+        c = place_at_offset(target)
+        if c is not None:
+            cases.append(c)
+    cases += enum_cases(rng, tier) + random_cases(rng, tier, 1500 if tier == "quick" else 25000)
     return cases
 
 
@@ -473,8 +539,8 @@ def model_tie(rep, written, limit=4000):
         rep.tie_broken("extracted writer model does not build: " + str(e)[:600])
         return
     import pq, pq_codecs
-    sel = [(c, st, data) for c, st, data in written if st.fault is None and model_size(c) < limit
-           and model_line(c) is not None]
+    sel = [(c, st, data) for c, st, data in written if st.fault is None
+           and model_size(c) < (12 * limit if c.name.startswith("boundary:") else limit) and model_line(c) is not None]
     lines = []
     for c, st, data in sel:
         if c.options.codec in MODEL_CODECS:
@@ -527,7 +593,7 @@ def model_tie(rep, written, limit=4000):
                                f"({len(sa)} / {len(sb)} pages; codec {c.options.codec}; {c.name})", line)
     # reader half: the extracted reader model (open, footer, chunks page after page) on the bytes of the REAL file
     rsel = [(c, data) for c, st, data in sel if data is not None and st.close_ok() and c.options.codec in MODEL_CODECS
-            and len(data) < 6000 and fc.expected_table(c) is not None]
+            and len(data) < (40000 if c.name.startswith("boundary:") else 6000) and fc.expected_table(c) is not None]
     rout, rprobs = vlib.run_sharded(run, ["rd 1 " + (d.hex() or "-") for _, d in rsel])
     for pr in rprobs:
         rep.tie_broken(f"model runner died while reading (rc={pr[1]}): {pr[2][-300:]}", pr[3])
@@ -542,3 +608,105 @@ def model_tie(rep, written, limit=4000):
                             "files_read_by_reader_model": n_read}
 
 
+
+
+
+# ----------------------------------------------------------------------------- determinism inside one process
+
+def _repetitive(rng, n):
+    """Bytes with many repeats over a small alphabet (what compressors find matches in)."""
+    alpha = rng.choice([b"ab", b"abc", b"abcd", b"abcdefgh"])
+    segs = [bytes(rng.choice(alpha) for _ in range(rng.randrange(6, 30))) for _ in range(8)]
+    out = bytearray()
+    while len(out) < n:
+        out += rng.choice(segs) if rng.random() < 0.6 else bytes(rng.choice(alpha) for _ in range(rng.randrange(1, 9)))
+    return bytes(out[:n])
+
+
+def _perturb(rng, data, frac):
+    b = bytearray(data)
+    for i in range(len(b)):
+        if rng.random() < frac:
+            b[i] = rng.choice(b"abcd")
+    return bytes(b)
+
+
+def history_sequences(rng, tier):
+    """Sequences T, U1..Uk, T written by ONE process: the second T must be byte-identical to the first whatever the
+    process compressed / allocated in between.  U's are perturbed copies of T (same bytes at the same offsets, other
+    matches), tables with other codecs and sizes, and unrelated random tables."""
+    seqs = []
+    n_blob, n_rand = (60, 30) if tier == "quick" else (400, 200)
+    for k in range(n_blob):
+        data = _repetitive(rng, rng.choice([300, 1000, 3000, 8000]))
+        codec = rng.choice(["SNAPPY", "LZ4", "SNAPPY", "LZ4", "ZSTD", "GZIP"])
+        col = fc.Column("b", "BYTE_ARRAY", rng.choice(["REQUIRED", "OPTIONAL"]))
+
+        def blob(d, cd, nm):
+            cut = rng.randrange(1, 4)
+            parts = [d[i * len(d) // cut:(i + 1) * len(d) // cut] for i in range(cut)]
+            return fc.Case(fc.Schema([col]), fc.Options(codec=cd, page_size=1 << 22),
+                           [fc.WriteOp("batch", 0, parts), fc.WriteOp("close")], name=nm)
+        t = fc.Case(fc.Schema([col]), fc.Options(codec=codec, page_size=1 << 22),
+                    [fc.WriteOp("batch", 0, [data]), fc.WriteOp("close")], name=f"seqT{k}")
+        us = [blob(_perturb(rng, data, f), codec, "U") for f in (0.05, 0.2)]
+        us.append(blob(bytes(rng.getrandbits(8) for _ in range(rng.choice([100, 500, 5000]))), rng.choice(["SNAPPY", "LZ4"]), "R"))
+        seqs.append([t] + us + [t])
+    for k in range(n_rand):
+        t = fc.gen_case(rng, max_rows=80, long_strings=False, max_cols=3)
+        t.name = f"seqR{k}"
+        us = [fc.gen_case(rng, max_rows=120, long_strings=(j == 0), max_cols=4) for j in range(rng.randrange(1, 4))]
+        seqs.append([t] + us + [t])
+    return seqs
+
+
+def check_history_determinism(rep, rng, tier):
+    """Runs the sequences; a T whose two files differ is a violation (C05 determinism clause)."""
+    seqs = history_sequences(rng, tier)
+    scripts, meta = [], []
+    for seq in seqs:
+        s = fc.Script("seq")
+        paths = [fc.tmppath() for _ in seq]
+        for c, p in zip(seq, paths):
+            s.raw("SCHEMA_RESET")
+            s.write(c, p)
+        scripts.append(s)
+        meta.append(paths)
+    outs = fc.run_scripts(scripts, env={"OMP_NUM_THREADS": "2"})
+    n = 0
+    for seq, paths, o in zip(seqs, meta, outs):
+        a = Path(paths[0]).read_bytes() if os.path.exists(paths[0]) else None
+        b = Path(paths[-1]).read_bytes() if os.path.exists(paths[-1]) else None
+        for p in paths:
+            if os.path.exists(p):
+                os.unlink(p)
+        rep.count(("seq", seq[0].name, len(seq)), nontrivial=bool(a))
+        replay = {"kind": "history-determinism", "sequence": [fc.case_to_json(c) for c in seq]}
+        if o.fault:
+            rep.violation(f"the writer died while writing a sequence of tables in one process: {o.fault.get('summary')}", replay)
+            continue
+        n += 1
+        if a != b:
+            k = None if (a is None or b is None) else next((i for i, (x, y) in enumerate(zip(a, b)) if x != y), min(len(a), len(b)))
+            rep.violation(f"the same table written twice by one process gives different files when other tables are written in "
+                          f"between ({seq[0].name}, {seq[0].options.codec}, {len(seq) - 2} tables in between): "
+                          f"{len(a or b'')} / {len(b or b'')} bytes, first difference at {k}", replay)
+    rep.cov.setdefault("input_distribution", {})["in_process_T_U_T_sequences"] = n
+
+
+def replay_history_determinism(r):
+    seq = [fc.case_from_json(c) for c in r["sequence"]]
+    s = fc.Script("seq")
+    paths = [fc.tmppath() for _ in seq]
+    for c, p in zip(seq, paths):
+        s.raw("SCHEMA_RESET")
+        s.write(c, p)
+    o = fc.run_scripts([s], shards=1)[0]
+    a = Path(paths[0]).read_bytes() if os.path.exists(paths[0]) else None
+    b = Path(paths[-1]).read_bytes() if os.path.exists(paths[-1]) else None
+    for p in paths:
+        if os.path.exists(p):
+            os.unlink(p)
+    print(f"sequence of {len(seq)} tables in one process; first and last are the same table")
+    print("  first write:", len(a or b""), "bytes; last write:", len(b or b""), "bytes;", "IDENTICAL" if a == b and a else "DIFFERENT", o.fault or "")
+    return 0 if (a == b and a and not o.fault) else 1
